@@ -81,6 +81,11 @@ CHECKS = {
         "For every string the harness runs element / attribute / mixed positions through Map.Xml, Map.XmlIndent, MapSeq.Xml, MapSeq.XmlIndent in the three escaping modes: exact bytes (encoder-side), decode-back equality, "
         "well-formed-or-error with the validity check (oracle encoding/xml), reproduction of stored values (decoder-side); the internal escapeChars is bound directly through the hook.",
    ref="DESIGN.md section 4, C05", technique="TLA+ character-level escaping theorems (TLC, exhaustive strings), spec->code replay with encoding/xml as well-formedness oracle"),
+ "C06": dict(
+   text="Character-level TLA+ specification MxjJson of encoding/json's string escaping in default and safe mode and of the exact bytes of Map.Json (sorted keys); TLC enumerates strings of <= N chunks over < > & backslash quote letter U+0001 newline "
+        "and the literal six-character sequences \\u003c \\u003e \\u0026 (as values, keys and nested) and checks unescape(escape(s)) = s, safe output free of < > &, default output holding them literally; the acceptance rule of NewMapJson is enumerated over "
+        "[ws] value [ws] [trailer] inputs. The harness compares Json bytes exactly, validity, decode-back equality for Json/JsonIndent, writer forms and Copy, and NewMapJson's acceptance and value against encoding/json on the same bytes (JsonUseNumber on/off).",
+   ref="DESIGN.md section 4, C06", technique="TLA+ character-level JSON string codec (TLC), byte-exact spec->code replay, encoding/json as oracle"),
 }
 NOT_YET = "machinery for this property is not built yet in this round (design in DESIGN.md section 4); no claim is made"
 
